@@ -85,25 +85,34 @@ theorem childA_pre (live : Bool) (kind : BlockKind) (ps : List Nat) (a1 : A) (hs
     (hfresh : ∀ p ∈ ps, a1.info.endAt p = none) (hn : ps.Nodup) : Pre live ps (childA kind a1) :=
   ⟨fun h => hs (childEnd_stops kind _ h), hfresh, hn⟩
 
+/-- the completions of an `if` without `else` whose test has plain completions `tc` -/
+theorem if_none_fields (ls : List Id) (p : Nat) (test : Kids) (c : Stmt) (hpl : test.compl.plain = true) :
+    let s := Stmt.compl ls (.ifS p test c none)
+    s.n = test.compl.n ∧ s.b = (test.compl.n && (c.compl []).b) ∧ s.c = (test.compl.n && (c.compl []).c) ∧
+    s.hasCl = (test.compl.n && (c.compl []).hasCl) ∧ s.t = (test.compl.t || (test.compl.n && (c.compl []).t)) := by
+  simp [Stmt.compl, Compl.plain_b hpl, Compl.plain_c hpl, Compl.plain_hasCl hpl]
+
 theorem if_none_ok (live : Bool) (ls : List Id) (p : Nat) (test : Kids) (c : Stmt) (a : A)
+    (hpl : test.compl.plain = true)
     (hpre : Pre live (p :: (test.positions ++ c.positions)) a)
-    (ihk : ∀ x, PreK test.positions x → PostK test.upos test.positions test.inner test.mayThrow x (visitKids test x))
-    (ih : ∀ a0, Pre live c.positions a0 → PostS live [] c a0 (visitStmt c a0)) :
+    (ihk : ∀ x, Pre live test.positions x → KidsL live test x (visitKids test x))
+    (ih : ∀ a0, Pre (live && test.compl.n) c.positions a0 → PostS (live && test.compl.n) [] c a0 (visitStmt c a0)) :
     PostS live ls (.ifS p test c none) a (visitStmt (.ifS p test c none) a) := by
-  have hk := ihk _ (Prefix.preK hpre)
+  have hk := ihk _ (Prefix.pre hpre)
   have hv : visitStmt (.ifS p test c none) a =
       (markAsEnd p .cont (withChild .ifK c.pos (fun x => sobTail c (visitStmt c x)) (visitKids test (flagA a p .other)))).setEnd
         (visitKids test (flagA a p .other)).sc.end_ := by simp [visitStmt, flagA]
   rw [hv]
   generalize visitKids test (flagA a p .other) = a1 at hk ⊢
   have hx := Prefix.of hpre hk
-  have hpre1 : Pre live c.positions (childA .ifK a1) := childA_pre live .ifK _ a1 hx.hs hx.hfresh hx.ndr
-  have h1 := sob_ok live [] c _ _ (ih _ hpre1)
+  have hpre1 : Pre (live && test.compl.n) c.positions (childA .ifK a1) :=
+    childA_pre _ .ifK _ a1 hx.hs hx.hfresh hx.ndr
+  have h1 := sob_ok _ [] c _ _ (ih _ hpre1)
   generalize ha2 : withChild .ifK c.pos (fun x => sobTail c (visitStmt c x)) a1 = a2
   rw [withChild_if] at ha2
-  obtain ⟨hi2, he, hb, hc, hmb, hmc, hmt, hpt⟩ := ifChild live [] c a1 _ a2 h1 ha2.symm
+  obtain ⟨hi2, he, hb, hc, hmb, hmc, hmt, hpt⟩ := ifChild _ [] c a1 _ a2 h1 ha2.symm
   generalize sobTail c (visitStmt c (childA .ifK a1)) = c' at h1 hi2
-  have hcp : c.pos ≠ p := fun e => hx.pr (e ▸ c.pos_mem)
+  obtain ⟨fn, fb, fc, fl, ft⟩ := if_none_fields ls p test c hpl
   have hcu : ∀ q, q ∈ c.upos → q ≠ p ∧ q ∉ test.positions := fun q hq =>
     ⟨fun e => hx.pr (e ▸ Stmt.upos_sub c q hq), fun h => hx.disj q h (Stmt.upos_sub c q hq)⟩
   have htu : ∀ q, q ∈ test.upos → q ≠ p ∧ q ∉ c.positions := fun q hq =>
@@ -111,33 +120,37 @@ theorem if_none_ok (live : Bool) (ls : List Id) (p : Nat) (test : Kids) (c : Stm
   refine ⟨⟨?_, ?_, ?_, ?_, ?_, ?_, ?_, ?_, ?_, ?_, ?_⟩, ?_⟩
   · intro hst
     simp only [setEnd_end] at hst
-    simp [hx.hs hst]
+    rw [fn]; exact hx.hs hst
   · intro hh
     simp only [setEnd_foundBreak, markAsEnd_foundBreak]
-    exact hb (by simpa [Stmt.compl] using hh)
+    rw [fb, ← Bool.and_assoc] at hh; exact hb hh
   · intro hh
     simp only [setEnd_foundContinue, markAsEnd_foundContinue]
-    exact hc (by simp only [Stmt.compl, seq_c, evalCompl_c, evalCompl_n, union_c, normal_c] at hh; revert hh; cases live <;> cases (c.compl []).c <;> simp)
+    rw [fc, ← Bool.and_assoc] at hh
+    exact hc (by rw [Bool.and_or_distrib_left, hh]; rfl)
   · intro hh
     simp only [setEnd_foundBreak, markAsEnd_foundBreak]
-    exact hmb (by rw [hx.hb]; exact hh)
+    exact hmb (hx.hb hh)
   · intro hh
     simp only [setEnd_foundContinue, markAsEnd_foundContinue]
     exact hmc (hx.hc hh)
   · intro hh
     simp only [setEnd_foundContinue, markAsEnd_foundContinue]
-    exact hc (by simp only [Stmt.compl, seq_hasCl, evalCompl_hasCl, evalCompl_n, union_hasCl, normal_hasCl] at hh; revert hh; cases live <;> cases (c.compl []).hasCl <;> simp)
+    rw [fl, ← Bool.and_assoc] at hh
+    exact hc (by rw [Bool.and_or_distrib_left, hh]; simp)
   · intro q hq hu
     simp only [setEnd_info, markAsEnd_ur] at hu
     rw [hi2] at hu
     simp only [Stmt.upos, List.mem_cons, List.mem_append] at hq
-    simp only [Stmt.reach, evalCompl_n, Bool.true_and]
+    simp only [Stmt.reach, evalCompl_eq]
     rcases hq with rfl | hqt | hqc
     · have := hx.dead hpre _ (ur_eq_of_info_eq (h1.frame q hx.pr)) hu
       simp [this]
-    · simp [(htu q hqt).1, c.reach_false q (htu q hqt).2]
+    · rw [ur_eq_of_info_eq (h1.frame q (htu q hqt).2)] at hu
+      have := hk.p3 q hqt hu
+      revert this; cases live <;> simp [(htu q hqt).1, c.reach_false q (htu q hqt).2]
     · have := h1.p3 q hqc hu
-      revert this; cases live <;> simp [(hcu q hqc).1]
+      revert this; cases live <;> simp [(hcu q hqc).1, Kids.flowReach_false test q (hcu q hqc).2]
   · intro q hq hu
     simp only [setEnd_info, markAsEnd_ur] at hu
     rw [hi2] at hu
@@ -146,7 +159,7 @@ theorem if_none_ok (live : Bool) (ls : List Id) (p : Nat) (test : Kids) (c : Stm
     rcases hq with rfl | hqt | hqc
     · simp [Kids.inner_false test q hx.pk, c.inner_false q hx.pr]
     · rw [ur_eq_of_info_eq (h1.frame q (htu q hqt).2)] at hu
-      simp [hk.p3 q hqt hu, c.inner_false q (htu q hqt).2]
+      simp [hk.p3i q hqt hu, c.inner_false q (htu q hqt).2]
     · simp [h1.p3i q hqc hu, Kids.inner_false test q (hcu q hqc).2]
   · intro q hq
     simp only [Stmt.positions, List.mem_cons, List.mem_append, not_or] at hq
@@ -158,16 +171,17 @@ theorem if_none_ok (live : Bool) (ls : List Id) (p : Nat) (test : Kids) (c : Stm
     exact hmt (hx.hmt hh)
   · intro hh
     simp only [setEnd_mayThrow, markAsEnd_mayThrow]
-    simp only [Stmt.compl, seq_t, evalCompl_t, evalCompl_n, union_t, normal_t, Bool.true_and, Bool.or_false] at hh
-    cases hkt : (live && test.mayThrow) with
-    | true => exact hmt (Prefix.pT hpre hk hkt)
+    rw [ft] at hh
+    cases hkt : (live && test.compl.t) with
+    | true => exact hmt (hx.pT hkt)
     | false =>
       apply hpt
-      revert hh hkt; cases live <;> cases test.mayThrow <;> simp
+      revert hh hkt; cases live <;> cases test.compl.t <;> cases test.compl.n <;> simp
   · intro _ hst
     simp only [Stmt.pos, setEnd_info] at hst
+    rw [fn]
     rcases markAsEnd_self_stops _ _ _ hst with h' | h'
-    · rw [he] at h'; simp [hx.hs h']
+    · rw [he] at h'; exact hx.hs h'
     · simp at h'
 
 end DL.CF
